@@ -294,10 +294,31 @@ def c13_streams(tier, rng):
     ]
 
 
+_POLL_ENTRY = _re.compile(r"^(R:\S*|P|N)(\+(R:\S*|P|N))*$")
+_WOKEN = _re.compile(r"^w[\d,]+$")
+
+
+def proj_ovec_wake(line):
+    """ovec mode for C14: per operation, the kinds of the poll answers (item / Pending / end) and which
+    subscribers' wakers fired; what the items contain is C05-C08"""
+    res = []
+    for entry in line.split(" ; "):
+        toks = entry.split(" ")
+        t0 = toks[0] if toks else ""
+        kinds = "".join(x[0] for x in t0.split("+")) if _POLL_ENTRY.match(t0) else "."
+        res.append(kinds + "".join(t for t in toks[1:] if _WOKEN.match(t)))
+    return " ; ".join(res)
+
+
 def c14_streams(tier, rng):
     q = tier == "quick"
     n = 6000 if q else 200000
-    return [
+    leaf_orc = {"wake", "wakedue", "stuck"}
+    leaf = [s for s in ovec_streams("c08", leaf_orc, _named("poll kinds and woken subscribers per operation", proj_ovec_wake))(tier, rng)
+            if s.mode == "ovec"]
+    for s in leaf:
+        s.name = "leaf-" + s.name
+    return leaf + [
         Stream("single-step", "adapt", gens.lts_single_step(("head", "tail", "skip"), 3, 4, include_bad=False),
                adapt_nontriv, True,
                "head/tail/skip single-step block: the poll trace of every input (which input was polled, what it answered) is compared with the model's, and at every Pending each input's stored waker must be the caller's (will_wake)",
@@ -340,7 +361,7 @@ PROPS.update({
     "C14": dict(streams=c14_streams, trusted=ADAPT_TRUST + ["Waker identity checked with Waker::will_wake on the implementation side"],
                 assumptions=["a leaf stream (the vector subscriber's stream, a limit/count stream) that answers Pending keeps the waker it was polled with (Stream contract; C02 for Subscriber, tokio broadcast for the vector subscriber)"],
                 strength="adapters alone and chained: proved for stacks of any height; the leaf streams' waiter lists (tokio broadcast, ReusableBoxFuture) are modelled in C05-C08, not re-proved here",
-                level_text="Coq theorems on the poll-loop model, generic in the adapter: a poll answers Pending only after, in that very call, the inner stream answered Pending and the limit stream answered Pending or its terminal end, with nothing deliverable left (ready buffer and queues empty); and a drained adapter stays Pending until an input has something. For chains (ChainPoll.v: the loop over an arbitrary inner stream, stacks as lists of stages of any state type): a Pending answer of the top of a stack of any height leaves the waker registered with the source and with every limit/count stream of the stack; a stack with nothing deliverable stays Pending and unchanged; over a scripted queue the generic loop equals the scripted loop that the correspondence check compares with the five poll_next implementations call by call; the model's fuel/depth bounds never change an answer. Tied to the crate by comparing the complete poll trace of both inputs on every poll, checking will_wake on every stored waker, and - for chains of 2-3 real adapters - checking after every drain that ends Pending that every leaf holds the waker of that poll.",
+                level_text="Coq theorems on the poll-loop model, generic in the adapter: a poll answers Pending only after, in that very call, the inner stream answered Pending and the limit stream answered Pending or its terminal end, with nothing deliverable left (ready buffer and queues empty); and a drained adapter stays Pending until an input has something. For chains (ChainPoll.v: the loop over an arbitrary inner stream, stacks as lists of stages of any state type): a Pending answer of the top of a stack of any height leaves the waker registered with the source and with every limit/count stream of the stack; a stack with nothing deliverable stays Pending and unchanged; over a scripted queue the generic loop equals the scripted loop that the correspondence check compares with the five poll_next implementations call by call; the model's fuel/depth bounds never change an answer. Tied to the crate by comparing the complete poll trace of both inputs on every poll, checking will_wake on every stored waker, and - for chains of 2-3 real adapters - checking after every drain that ends Pending that every leaf holds the waker of that poll; the leaf streams themselves (plain and batched subscriber stream of a real ObservableVector) are run with a counting waker: ready again after Pending only if it fired, a publish or the drop of the vector while Pending fires it before the call returns, a Pending stream whose waker has not fired is still Pending when polled again.",
                 level_note="Trusted: as C09, plus the Stream contract of the leaves. The unbatched loop is the one modelled generically; the batched loop differs in the item type only and is covered by the scripted-loop theorems."),
 })
 
@@ -351,6 +372,13 @@ def chain_hist(case, obs):
     return ">".join(":".join(s.split(":")[:2] + (["self"] if s.endswith(":self") else [])) for s in st)
 
 
+def hand_hist(case, obs):
+    h = case.split(" :: ")[0].split(" | ")
+    evs = case.split(" :: ")[1].split(" ; ")
+    i = evs.index("H") if "H" in evs else 0
+    return h[0].split()[0] + "/" + ":".join(h[1].split(":")[:2]) + "/" + (evs[i - 1].split(":")[0] if i > 0 else "-") + ">H"
+
+
 def c12_streams(tier, rng):
     q = tier == "quick"
     ntr, per = (150, 4) if q else (2000, 30)
@@ -359,6 +387,12 @@ def c12_streams(tier, rng):
     return [Stream("chains", "chain", cases, lambda c, o: _re.search(r" t\d=[^- ]", o) is not None, False,
                    "all two-stage chains over {head,tail,skip} x {static p in 0/2/5, dyninit, dynamic; handed over as (values, stream) or - for dynamic, static 2, dyninit 2 - as the adapter itself} + filter/filter_map (4 masks) and %d seeded three-stage chains, %d random histories each (source diffs, batches, limit changes of any stage, full drains), per-stage taps; plus chains with sort at the bottom under every other stage (distinct values, no Truncate)" % (ntr, per),
                    chain_hist, oracles=orc),
+            Stream("late-handover", "hand", gens.hand_exhaustive(q), lambda c, o: "H=[" in o and "H=[]" not in o, True,
+                   "the by-itself hand-over of head/tail/skip (static 2, dyninit 2, dynamic) at an arbitrary moment: every applicable source diff on [1,2,3] x stage 0 then not polled / polled once (a second diff of the burst stays parked in its ready buffer) / drained x optional limit change to 0/1/3 again followed by nothing / one poll / a drain; then into_parts, stage 1 (%d kinds) on top, drain, two more source updates with drains; unbatched and batched" % (3 if q else 5),
+                   hand_hist, oracles={"stage0", "stage1", "app", "nopanic"}),
+            Stream("late-handover-random", "hand", gens.hand_random(rng, 3000 if q else 100000), lambda c, o: "H=[" in o and "H=[]" not in o, False,
+                   "%d seeded random histories: stage 0 (any flavour, limit 0..4) driven through source diffs, batches, limit changes, single polls and drains, handed over by itself at a random moment, then the two-stage stack driven further (limit changes of both stages)" % (3000 if q else 100000),
+                   hand_hist, oracles={"stage0", "stage1", "app", "nopanic"}),
             Stream("end-to-end", "e2e", gens.e2e_cases(rng, 3000 if q else 100000), e2e_nontriv, False,
                    "%d seeded random histories of 1-2 stage stacks on a real ObservableVector subscriber (plain and batched), see C13; here: rebuilt view = stack's view of the vector at every Pending, every diff applicable, no panic" % (3000 if q else 100000),
                    e2e_hist, oracles={"e2eview", "e2eapp", "e2enopanic", "e2einit"}, project=proj_none)]
@@ -367,10 +401,10 @@ def c12_streams(tier, rng):
 PROPS["C12"] = dict(
     streams=c12_streams, trusted=ADAPT_TRUST + ["chains are evaluated stage by stage to quiescence in the model (all cases use full drains)"],
     assumptions=["every stage satisfies its one-step theorem (C09-C11)", "known finding tail_shrink_over_len excluded (a chain is claimed only while no stage is in a recorded class)",
-                 "hand-over by the adapter itself happens at a quiescent point (at construction)"],
+                 "two consecutive by-itself hand-overs are not exercised"],
     strength="full given C09-C11; inherits their known-finding classes",
-    level_text="Coq theorems: if two stages satisfy the one-step correctness statement then so does their composition (the lower stage's guarantee that every emitted diff is applicable to its view is the upper stage's input guard), for limit changes of either stage, for chains of any length by iteration (stated for three), lifted to whole histories; and into_parts of Head/Tail/Skip returns the current view; end to end: an ObservableVector under any history, one of its subscribers and any correct adapter fed with what that subscriber's stream delivers - no panic, every emitted diff applicable, and at every Pending the view stands for the vector's current contents (instance spelled out for Head). Tied to the crate by running all two-stage chains and sampled three-stage chains of the real adapters with taps between the stages, and 1-2 stage stacks end to end on a real ObservableVector subscriber (oracle-only stream).",
-    level_note="Trusted: as C09. Known finding F4 (tail_shrink_over_len) is inherited and reported as KNOWN-FINDING; F7 (into_parts handed the source copy) was repaired in 8c08ab1.")
+    level_text="Coq theorems: if two stages satisfy the one-step correctness statement then so does their composition (the lower stage's guarantee that every emitted diff is applicable to its view is the upper stage's input guard), for limit changes of either stage, for chains of any length by iteration (stated for three), lifted to whole histories; and into_parts of Head/Tail/Skip returns the current view - at ANY moment of the adapter's life: the consumer of an unbatched adapter is behind it by exactly the diffs parked in its ready buffer (an invariant of the poll loop for any correct adapter), and the hand-over (as repaired in cc06c71: parked diffs dropped) starts the next stage from the adapter's own view with nothing parked; refuted for the code before the repair; end to end: an ObservableVector under any history, one of its subscribers and any correct adapter fed with what that subscriber's stream delivers - no panic, every emitted diff applicable, and at every Pending the view stands for the vector's current contents (instance spelled out for Head). Tied to the crate by running all two-stage chains and sampled three-stage chains of the real adapters with taps between the stages, by handing head/tail/skip over by themselves at arbitrary moments (mode hand: after single polls, drains, limit changes, with a diff still parked), and 1-2 stage stacks end to end on a real ObservableVector subscriber (oracle-only stream).",
+    level_note="Trusted: as C09. Known finding F4 (tail_shrink_over_len) is inherited and reported as KNOWN-FINDING; F7 (into_parts handed the source copy) was repaired in 8c08ab1, F9 (hand-over in the middle of a burst replayed the parked diffs) in cc06c71.")
 
 
 # ---------------------------------------------------------------- observable value
@@ -518,7 +552,7 @@ PROPS.update({
                 assumptions=["no subscribe while a transaction is open (the transaction holds &mut ObservableVector)"],
                 level_text="Coq theorems: abandoning a transaction at any point (drop, rollback, drop after partial rollbacks; any body incl. panicking calls) returns exactly the state before it, so every later observation is as without it; before commit nothing is visible outside and the handle sees the working contents; commit installs the working contents and publishes at most one message holding the whole batch, which takes the old contents to the new ones; an empty batch publishes nothing; a batched subscriber's replica only ever equals contents at operation boundaries. Tied to transaction.rs by exhaustive transaction bodies with every way of ending them.",
                 level_note="Trusted: as C05."),
-    "C08": dict(streams=ovec_streams("c08", {"endalive", "final", "wake", "app"}), hook=True, trusted=OVEC_TRUST,
+    "C08": dict(streams=ovec_streams("c08", {"endalive", "final", "wake", "wakedue", "app"}), hook=True, trusted=OVEC_TRUST,
                 assumptions=["as C06"],
                 level_text="Coq theorems for every capacity and polling pattern: a poll reports the end only after the vector is dropped, and then the replica equals the final contents - also for a subscriber lagged beyond capacity (after the repair of handle_lag's Closed arm) or in the middle of a batch; a Pending subscriber is registered and the drop wakes every registered subscriber. Tied to the crate by histories ending in drop + drain in all four lag situations.",
                 level_note="Trusted: as C05. Finding F2 (stale final state after lag + drop) was repaired in 0590f0c."),
@@ -662,9 +696,9 @@ def conc_streams(orc, with_lin=False, with_seq=None):
                              lambda c, o: c.split()[0], oracles={"racefinal"}))
             r2, r3 = (60, 3000) if q else (1500, 60000)
             st.append(Stream("free-running-order", "race",
-                             ["kind=pollstream rounds=%d" % r2 for _ in range(4)] + ["kind=setifeq rounds=%d" % r3 for _ in range(4)],
+                             ["kind=pollstream rounds=%d" % r2 for _ in range(4)] + ["kind=%s rounds=%d" % (k, r3) for k in ("setifeq", "setifhash", "condset") for _ in range(4)],
                              lambda c, o: True, False,
-                             "4 x %d rounds of a writer storing 300 values back to back while the subscriber polls (every value handed out must be newer than the previous one, the subscriber ends on the final value and is then Pending), and 4 x %d rounds of two concurrent set_if_not_eq with equal values (exactly one of them stores)" % (r2, r3),
+                             "4 x %d rounds of a writer storing 300 values back to back while the subscriber polls (every value handed out must be newer than the previous one, the subscriber ends on the final value and is then Pending), and 4 x %d rounds each of: two concurrent set_if_not_eq with equal values, two concurrent set_if_hash_not_eq with equal hashes (exactly one of them stores), a conditional writer racing a plain set of a value equal to its argument (it never replaces a value equal to its own)" % (r2, r3),
                              lambda c, o: c.split()[0], oracles={"racefinal", "raceorder"}))
         if race_orc:
             r = 2500 if q else 50000
